@@ -491,6 +491,9 @@ func (fr *frame) execBinOp(st *state, v *ssa.BinOp) {
 		if xs == "Str" {
 			r := sc.define("concat", "Str", app("sconcat", x, y))
 			sc.assume(fmt.Sprintf("(and (= (slo %s) 0) (= (shi %s) (+ (slen %s) (slen %s))))", r, r, x, y))
+			// the content (canonical key) of a concatenation is determined by the contents of its operands
+			u.global("(declare-fun kcat (Int Int) Int)")
+			sc.assume(fmt.Sprintf("(= (skey %s) (kcat (skey %s) (skey %s)))", r, x, y))
 			t = r
 		} else {
 			t = app("+", x, y)
@@ -820,6 +823,7 @@ func (fr *frame) execLookup(st *state, v *ssa.Lookup) {
 // Range / Next -------------------------------------------------------------
 
 type rangeInfo struct {
+	dom0 string // map ranges: the domain when the iteration started
 	str   string // string term (string range)
 	isMap bool
 	m     string
@@ -838,6 +842,14 @@ func (fr *frame) execRange(st *state, v *ssa.Range) {
 	if _, ok := v.X.Type().Underlying().(*types.Map); ok {
 		ri.isMap = true
 		ri.m = fr.val(v.X)
+		// ghost: the domain when the iteration starts and the (empty) set of keys visited so far
+		md, _, ks, _ := fc.e.mapKeys(v.X.Type())
+		ri.dom0 = fc.sc.defineConst("rdom0", "(Array "+ks+" Bool)", app("select", fc.hget(st, md), ri.m))
+		vk := "ITV|" + ks
+		fc.hset(st, vk, app("store", fc.hget(st, vk), r, fmt.Sprintf("((as const (Array %s Bool)) false)", ks)))
+		fr.lastMapRange = r
+		fr.lastMapRangeKS = ks
+		fr.lastMapDom0 = ri.dom0
 	} else {
 		ri.str = fr.val(v.X)
 	}
@@ -885,6 +897,17 @@ func (fr *frame) execNext(st *state, v *ssa.Next) {
 		sc.assume(implies(st.reach, fmt.Sprintf("(and (>= %s 0) (=> %s (< %s (%s (select %s %s)))))", pos, ok, pos, fn, fc.hget(st, md), m)))
 	}
 	sc.assume(implies(ok, fmt.Sprintf("(and (not (= %s 0)) (select (select %s %s) %s))", m, fc.hget(st, md), m, k)))
+	{
+		// every key is produced at most once; when the iteration ends, every key that was in the map when it began
+		// and still is has been produced (Go spec: entries removed are not produced, entries added may be skipped)
+		vk := "ITV|" + ks
+		vis := app("select", fc.hget(st, vk), it)
+		sc.assume(implies(ok, not(app("select", vis, k))))
+		q := sc.fresh("q")
+		sc.assume(implies(and(st.reach, not(ok)), fmt.Sprintf("(forall ((%s %s)) (! (=> (and (select %s %s) (select (select %s %s) %s)) (select %s %s)) :pattern ((select %s %s))))",
+			q, ks, ri.dom0, q, fc.hget(st, md), m, q, vis, q, vis, q)))
+		fc.hset(st, vk, app("store", fc.hget(st, vk), it, ite(ok, app("store", vis, k, "true"), vis)))
+	}
 	val := sc.define("mval", vs, fmt.Sprintf("(select (select %s %s) %s)", fc.hget(st, mv), m, k))
 	mt := ri.typ.Underlying().(*types.Map)
 	fr.typeInv(st, val, vs, mt.Elem(), false)
